@@ -15,7 +15,7 @@ definitions takes the union of their units (that is what makes `i = first_escape
 """
 from . import mir as M
 
-BYTE, CHAR, UTF16 = "byte", "char", "utf16"
+BYTE, CHAR, UTF16, LINELEN = "byte", "char", "utf16", "line-length"
 
 BYTE_CALLS = ("core::str::<impl str>::len", "std::string::String::len", "core::str::<impl str>::find",
               "core::str::<impl str>::rfind", "::Match::<'h>::end", "::Match::<'h>::start", "::Match::<'_>::end",
@@ -81,6 +81,47 @@ def analyse(f, P=None, param_units=None, ret_units=None):
         elif ret_units and n in ret_units and ret_units[n]:
             for un in ret_units[n]:
                 seeds.append((d["l"], un))
+    # lengths of `str::lines()` items: lines() strips "\n" *and* "\r\n", so `len + 1` summed over lines is not a byte
+    # distance in a CRLF document
+    def from_lines(op, depth=0):
+        r = f.root_of(op, through_named=True)
+        for _ in range(8):
+            if r[0] == "place":
+                dd = [d for d in f.defs.get(r[1]["l"], []) if d[1] == "term"]
+                if len(dd) != 1:
+                    return False
+                r = ("call", dd[0][0], dd[0][2])
+                continue
+            if r[0] != "call":
+                return False
+            n_ = M.callee_name(r[2]) or ""
+            at_ = r[2].get("argtys") or []
+            if n_.endswith("<impl str>::lines") or (at_ and "std::str::Lines" in at_[0]):
+                return True
+            if not r[2]["args"]:
+                return False
+            r = f.root_of(r[2]["args"][0], through_named=True)
+        return False
+    for bi, t in f.calls():
+        n = M.callee_name(t) or ""
+        d = t.get("dest")
+        if not d or d["p"] or not t["args"]:
+            continue
+        if n == "core::str::<impl str>::len" and from_lines(t["args"][0]):
+            seeds.append((d["l"], LINELEN))
+        elif n.endswith(("Iterator::sum", "Iterator::fold", "Iterator::max", "Iterator::min")) and from_lines(t["args"][0]) and P is not None:
+            # map(|l| l.len() ..) over lines(): the closure's result is a byte count of a stripped line
+            r = f.root_of(t["args"][0], through_named=True)
+            for _ in range(6):
+                if r[0] != "call":
+                    break
+                for a in r[2]["args"][1:]:
+                    cp = _closure_def(f, a)
+                    if cp and cp in P.funcs and BYTE in closure_ret_units(P, cp):
+                        seeds.append((d["l"], LINELEN))
+                if not r[2]["args"]:
+                    break
+                r = f.root_of(r[2]["args"][0], through_named=True)
     for l, un in seeds:
         units.setdefault(l, set()).add(un)
     # field seeds: places ending in start_offset / end_offset of a Position
